@@ -2,7 +2,7 @@ from vlib.core import Ob
 from props._compose import pick
 ID = "C10"
 LEVEL = "model_checking"
-FUNCTIONS = ["hash", "hash_data", "Int_Hash", "Float_Hash", "String_Hash", "Type_Hash", "assign", "swap", "memswap", "Int_Assign", "Float_Assign", "String_Assign", "String_New", "eq", "cmp"]
+FUNCTIONS = ["hash", "hash_data", "Int_Hash", "Float_Hash", "String_Hash", "Type_Hash", "assign", "swap", "memswap", "Int_Assign", "Float_Assign", "String_Assign", "String_New", "eq", "cmp", "Table_Cmp", "Array_Cmp", "List_Cmp", "Array_Hash", "List_Hash"]
 ASSUMPTIONS = []
 EXPLANATION = "bounded symbolic execution of hash/eq/assign/swap on symbolic values; hash_data differential against a reference MurmurHash64A"
 US = ["Type_Scan.0:24", "Type_Scan.1:24", "strcmp.0:24"]
@@ -19,6 +19,15 @@ OBLIGATIONS = [
        unwind=max(n, 9) + 3, checks=["bounds", "pointer"], tiers=(Q if (n, o) in QUICKSET else ("thorough",)), timeout=1800, link=["Hash.c"], backend="z3")
     for (n, o) in ALLSET
 ]
+import props.C02 as _c02
+OBLIGATIONS += [Ob("table_cmp.ns5", "C10/table_cmp.c", defs=["NS=5", "OP=0", "ELEM_D=6"], replace=["Table.c"], unwind=8, unwindset=_c02.US(5, 5) + ["v2_len.0:8", "key_id.0:8", "v2_from.0:8", "v2_iter_next.0:8", "v2_table_get.0:8", "Table_Cmp.0:8", "Table_Cmp.1:8"],
+                   replace_calls=["len:v2_len", "mem:v2_mem", "get:v2_get", "iter_init:v2_iter_init", "iter_next:v2_iter_next", "neq:v2_neq", "cmp:v2_cmp", "Table_Get:v2_table_get"],
+                   checks=["bounds", "pointer", "div0"], tiers=Q, timeout=1800, mem_gb=10, desc="Table cmp/eq between an arbitrary valid 5-slot Table and an abstract other Table (free entries, free iteration order)")]
+PUS = US + ["memswap.0:140", "memcpy.0:20", "memcpy.1:140", "memcmp.0:140", "hash_data.0:20", "harness.0:140", "harness.1:140", "harness.2:140", "harness.3:140"]
+OBLIGATIONS += [Ob("struct_swap.sz%d" % z, "C10/pointer_swap.c", defs=["CASE=1", "SZ=%d" % z], unwind=140, unwindset=PUS, checks=["bounds", "pointer"], tiers=Q, timeout=900, backend="z3" , desc="default swap/assign/eq/hash on a plain %d-byte struct" % z) for z in (24, 72, 136)]
+OBLIGATIONS += [Ob("ref_assign.sub%d" % u, "C10/pointer_swap.c", defs=["CASE=2", "SUB=%d" % u], unwind=20, unwindset=PUS, checks=["bounds", "pointer"], tiers=Q, timeout=900, desc="Ref assign/copy/eq/hash, one level of dereference (part %d)" % u) for u in range(3)]
+OBLIGATIONS += [Ob("box_owns.kind%d" % u, "C10/pointer_swap.c", defs=["CASE=3", "SUB=%d" % u], unwind=20, unwindset=PUS, checks=["bounds", "pointer"], tiers=Q, timeout=900, replace_calls=["del:v_del"], desc="Box finalisation hands the pointee to del exactly once (%s Box)" % ["stack", "heap", "embedded"][u]) for u in range(3)]
+OBLIGATIONS += pick("C04", r"tuple\.cmphash\.n[23]m[23]") + pick("C03", r"tree\.cmphash\.q")
 OBLIGATIONS += pick("C09", r"container_cmp\.(array|list)\.n[23]m[23]")
 LEVEL_TEXT = ("Bounded model checking: Int/Float hash and eq at full 64-bit / IEEE width, String content up to the stated length, hash_data differentially "
               "against an independent MurmurHash64A for the listed (length, alignment) pairs; SMT back end (z3) for the multiply kernels.")
